@@ -3,6 +3,7 @@
 MODULES = {
     "lib": dict(host="src/lib.rs", file="lib_harness.rs"),
     "multinomial": dict(host="src/solve/multinomial.rs", file="multinomial_harness.rs", prefix="solve::multinomial::"),
+    "vanilla": dict(host="src/solve/vanilla.rs", file="vanilla_harness.rs", prefix="solve::vanilla::"),
     "data": dict(host="src/solve/data.rs", file="data_harness.rs", prefix="solve::data::"),
 }
 
@@ -26,10 +27,14 @@ HARNESSES = {
           bounded="player one: infosets of 2 and 3 actions + one single-action infoset; entries any f64 in [0,1]"),
     ],
     "C14": [
-        H("c14_import_slow_two_entries", "lib", "C14.K.import_slow.accepts_iff",
-          bounded="one multi-action infoset (2 actions) + one single-action infoset; 2 entries x 1 (action, weight) pair; names from a 6-value alphabet; weights any f64"),
-        H("c14_import_slow_one_entry", "lib", "C14.K.import_slow.accepts_iff",
-          bounded="one multi-action infoset (2 actions); 1 entry x 2 (action, weight) pairs; names from a 6-value alphabet; weights any f64"),
+        H("c14_import_case_multi_single", "lib", "C14.K.import_slow.accepts_iff", bounded="one multi-action infoset (2 actions) [+ one single-action infoset]; 2 entries x 1 pair with the concrete name pattern `multi_single`; weights ANY f64 (legal ones <= 1e300)"),
+        H("c14_import_case_single_multi", "lib", "C14.K.import_slow.accepts_iff", bounded="one multi-action infoset (2 actions) [+ one single-action infoset]; 2 entries x 1 pair with the concrete name pattern `single_multi`; weights ANY f64 (legal ones <= 1e300)"),
+        H("c14_import_case_repeat", "lib", "C14.K.import_slow.accepts_iff", bounded="one multi-action infoset (2 actions) [+ one single-action infoset]; 2 entries x 1 pair with the concrete name pattern `repeat`; weights ANY f64 (legal ones <= 1e300)"),
+        H("c14_import_case_two_actions", "lib", "C14.K.import_slow.accepts_iff", bounded="one multi-action infoset (2 actions) [+ one single-action infoset]; 2 entries x 1 pair with the concrete name pattern `two_actions`; weights ANY f64 (legal ones <= 1e300)"),
+        H("c14_import_case_missing_single", "lib", "C14.K.import_slow.accepts_iff", bounded="one multi-action infoset (2 actions) [+ one single-action infoset]; 2 entries x 1 pair with the concrete name pattern `missing_single`; weights ANY f64 (legal ones <= 1e300)"),
+        H("c14_import_case_unknown_infoset", "lib", "C14.K.import_slow.accepts_iff", bounded="one multi-action infoset (2 actions) [+ one single-action infoset]; 2 entries x 1 pair with the concrete name pattern `unknown_infoset`; weights ANY f64 (legal ones <= 1e300)"),
+        H("c14_import_case_illegal_action", "lib", "C14.K.import_slow.accepts_iff", bounded="one multi-action infoset (2 actions) [+ one single-action infoset]; 2 entries x 1 pair with the concrete name pattern `illegal_action`; weights ANY f64 (legal ones <= 1e300)"),
+        H("c14_import_case_illegal_single_action", "lib", "C14.K.import_slow.accepts_iff", bounded="one multi-action infoset (2 actions) [+ one single-action infoset]; 2 entries x 1 pair with the concrete name pattern `illegal_single_action`; weights ANY f64 (legal ones <= 1e300)"),
     ],
     "C19": [
         H("c19_distance_not_nan", "lib", "C19.K.distance.not_nan", bounded="one infoset of 2 actions / empty player; entries any f64 in [0,1]; p in {1, 2} (powf modelled exactly)"),
@@ -59,9 +64,13 @@ HARNESSES = {
         H("c08_regret_match_fallbacks_n1", "data", "C05.K.regret_match.distribution", bounded=B3),
         H("c08_regret_match_fallbacks_n2", "data", "C05.K.regret_match.distribution", bounded=B3, tier="thorough", timeout=1800),
         H("c08_regret_match_fallbacks_n3", "data", "C05.K.regret_match.distribution", bounded=B3, tier="thorough", timeout=1800),
-        H("c05_regret_match_softmax_n1", "data", "C05.K.regret_match.softmax", bounded=B3 + "; exp replaced by a sound interval model"),
-        H("c05_regret_match_softmax_n2", "data", "C05.K.regret_match.softmax", bounded=B3 + "; exp replaced by a sound interval model", tier="thorough", timeout=1800),
-        H("c05_regret_match_softmax_n3", "data", "C05.K.regret_match.softmax", bounded=B3 + "; exp replaced by a sound interval model", tier="thorough", timeout=1800),
+        H("c05_regret_match_softmax_pos_n1", "data", "C05.K.regret_match.softmax", bounded="1 action; weight 1.0; exp interval model"),
+        H("c05_regret_match_softmax_neg_n1", "data", "C05.K.regret_match.softmax", bounded="1 action; weight -1e3; exp interval model"),
+        H("c05_regret_match_softmax_pos_n2", "data", "C05.K.regret_match.softmax", bounded="2 actions, regrets any finite |r| <= 1e150; weight 1e3; exp interval model"),
+        H("c05_regret_match_softmax_neg_n2", "data", "C05.K.regret_match.softmax", bounded="2 actions, regrets any finite |r| <= 1e150; weight -1e3; exp interval model"),
+        H("c05_regret_match_softmax_pos_n3", "data", "C05.K.regret_match.softmax", bounded="3 actions; weight 1.0; exp interval model", tier="thorough", timeout=1800),
+        H("c05_regret_match_softmax_neg_n3", "data", "C05.K.regret_match.softmax", bounded="3 actions; weight -1.0; exp interval model", tier="thorough", timeout=1800),
+        H("c05_regret_match_softmax_anyw_n2", "data", "C05.K.regret_match.softmax", bounded="2 actions; any finite non-zero weight |w| <= 1e3; exp interval model", tier="thorough", timeout=3600),
         H("c02_cum_regret_formula_n1", "data", "C05.K.cum_regret.finite_nonneg", bounded=B3),
         H("c02_cum_regret_formula_n2", "data", "C05.K.cum_regret.finite_nonneg", bounded=B3),
         H("c02_cum_regret_formula_n3", "data", "C05.K.cum_regret.finite_nonneg", bounded=B3, tier="thorough", timeout=1800),
@@ -83,6 +92,10 @@ HARNESSES = {
         H("c08_discount_average_strat_n1", "data", "C08.K.discount_average_strat", bounded=B3, tier="thorough", timeout=1800),
         H("c08_discount_average_strat_n2", "data", "C08.K.discount_average_strat", bounded=B3, tier="thorough", timeout=1800),
         H("c08_discount_average_strat_n3", "data", "C08.K.discount_average_strat", bounded=B3, tier="thorough", timeout=1800),
+    ],
+    "C06": [
+        H("c06_thread_threshold_reach", "vanilla", "C06.K.thread_threshold.reach", tier="thorough", timeout=7200,
+          bounded="root decision node with three terminal children, target 3; strategy entries any f64 in [0,1]"),
     ],
     "C10": [
         H("c10_multinomial_inverse_cdf", "multinomial", "C10.K.multinomial.inverse_cdf",
